@@ -42,9 +42,12 @@ PosFor(p0, isString) == IF ~isString /\ p0 \in {"InSQ", "InDQ", "InTpl"} THEN p0
 Judge(p, raw, jt, isString, out) ==
     LET d == PosDef(p)
         useRaw == isString /\ d.stages = <<"jsstr">>
-        r == ConsumeAll(p, out)
+        \* the dynamic output, then the author's closing quote
+        r1 == Consume(p, CsInit(p), out)
+        r2 == Consume(p, r1.cs, IF d.mode # "top" THEN <<JsQuoteOf(d.mode)>> ELSE <<>>)
+        r == [cs |-> r2.cs, d |-> r1.d \o r2.d, t |-> r1.t \o r2.t]
         \* a value written inside the author's literal must not leave it before the author's closing quote
-        left == d.mode # "top" /\ Consume(p, CsInit(p), out).top
+        left == d.mode # "top" /\ r1.top
         \* what the consumer must recover: the string itself where a JS string results, else the JSON text
         exp == IF useRaw THEN NormSeq(raw)
                ELSE IF d.expect = "json" THEN NormSeq(jt)
